@@ -823,6 +823,30 @@ impl Graph {
         profiler: Option<&mut Profiler<'a>>,
         opts: Option<RunOptions>,
     ) -> Result<Vec<Value>, RunError> {
+        // A subgraph may list the same value more than once among its outputs,
+        // but execution planning requires unique output IDs. Compute the
+        // distinct outputs and copy them to the requested positions.
+        let unique_outputs = unique_node_ids(outputs);
+        if unique_outputs.len() != outputs.len() {
+            let values = self.run_subgraph(
+                inputs,
+                &unique_outputs,
+                captures,
+                pool,
+                weight_cache,
+                profiler,
+                opts,
+            )?;
+            let outputs = outputs
+                .iter()
+                .map(|id| {
+                    let index = unique_outputs.iter().position(|uid| uid == id).unwrap();
+                    values[index].clone()
+                })
+                .collect();
+            return Ok(outputs);
+        }
+
         let input_ids: Vec<_> = inputs.iter().map(|(node_id, _)| *node_id).collect();
         let plan = self.get_cached_plan(&input_ids, outputs, true /* is_subgraph */)?;
         let opts = opts.unwrap_or_default();
@@ -1449,6 +1473,20 @@ impl Default for Graph {
     fn default() -> Self {
         Self::new()
     }
+}
+
+/// Return the distinct IDs in `ids`, in order of first occurrence.
+///
+/// A subgraph may list the same value more than once among its outputs, whereas
+/// execution planning requires unique output IDs.
+pub fn unique_node_ids(ids: &[NodeId]) -> Vec<NodeId> {
+    let mut unique = Vec::with_capacity(ids.len());
+    for id in ids {
+        if !unique.contains(id) {
+            unique.push(*id);
+        }
+    }
+    unique
 }
 
 #[cfg(test)]
